@@ -13,6 +13,7 @@ import Gojq.Proofs.EncodeStr
 import Gojq.Proofs.EncodeNum
 import Gojq.Proofs.EncodeParse
 import Gojq.Proofs.EncodeStrip
+import Gojq.Proofs.EncodeIndent
 namespace Gojq.C12
 open Gojq Gojq.Encode
 
@@ -76,9 +77,18 @@ theorem encode_roundtrip_partial (v : JV) (h : modelled v = true) :
     parseJson (encodeValue v) = some (readBack v) :=
   parseJson_encodeValue v h
 
-/-- `tojson | fromjson` (the reader standing for `fromjson`) is `readBack`. -/
-theorem tojson_fromjson (v : JV) (h : modelled v = true) : (parseJson (encodeValue v)).map readBack = some (readBack (readBack v)) := by
-  rw [encode_roundtrip_partial v h]; rfl
+/-- `tojson | fromjson` is `readBack`: the identity up to NaN ↦ null, ±inf ↦ ±MaxFloat64, U+FFFD
+    replacement and integral floats read as integer literals. -/
+theorem tojson_fromjson (v : JV) (h : modelled v = true) : fromjson (tojson v) = some (readBack v) :=
+  encode_roundtrip_partial v h
+
+/-- `tostring` (and `@text`) is `tojson` (and `@json`) on everything that is not a string, and the
+    identity on strings. -/
+theorem tostring_is_tojson (v : JV) : (∀ s, v ≠ .str s) → tostring v = tojson v := by
+  intro h
+  cases v with
+  | str s => exact absurd rfl (h s)
+  | _ => rfl
 
 mutual
   /-- no finite float below (NaN and ±inf allowed) -/
@@ -178,6 +188,21 @@ theorem indent_exact_newline (o : Cli.Opts) (depth : Int) (b : Cli.Buf) :
     (Cli.writeIndent o depth b).total = b.total ++ cNl :: List.replicate depth.toNat o.unit :=
   Cli.total_writeIndent o depth b
 
+/-- Walking the command's real output bytes (colours removed) with a bracket-depth counter: after
+    every newline outside a string the run of units (tabs with `--tab`, else spaces) has length
+    exactly `depth × indent` — `(depth − 1) × indent` before a closing bracket — and the output
+    never ends inside such a run: for every indenting mode (`indent ≥ 0`), every accepted colour
+    record and every value, at every depth. -/
+theorem indent_exact_output (o : Cli.Opts) (ho : ∀ c, o.color = some c → c.Valid) (hi : o.indent ≥ 0) (v : JV) :
+    indentOk o.unit o.indent.toNat .out 0 (stripSGR (Cli.encodeCli o v)) = true :=
+  indentOk_encodeCli o (optsOK_of_valid o ho) hi v
+
+/-- Compact mode (`-c`, indent −1): minus colours the command writes exactly the library
+    encoder's bytes — no white space at all. -/
+theorem compact_is_marshal (o : Cli.Opts) (ho : ∀ c, o.color = some c → c.Valid) (hi : o.indent < 0) (v : JV) :
+    stripSGR (Cli.encodeCli o v) = encodeValue v :=
+  compact_encodeCli o (optsOK_of_valid o ho) hi v
+
 /-- Flushing changes nothing but chunk boundaries: from ANY buffer state (any flushed chunks, any
     pending bytes) encoding a value at nesting level `level` adds exactly the layout
     `render o level v`, in which every newline is followed by `level × indent` units
@@ -225,10 +250,15 @@ example : parseJson (encodeValue (.arr [.num (.flt ((1 : Rat) / 2)), .num (.flt 
   have h2 : readBackFlt 100 = .int 100 := by decide +kernel
   rw [encode_roundtrip_partial _ (by decide +kernel)]
   simp [readBack, readBackList, readBackNum, h1, h2]
+example : tostring (.str [0x61]) = .str [0x61] ∧ (∀ s, JV.num (.int 1) ≠ .str s) := ⟨rfl, fun _ h => by cases h⟩
 -- an integral float is read back as an integer literal (third alternative of `float_readback_faithful`)
 example : readBackFlt 100 = .int 100 := by decide +kernel
 -- indentation beyond the 32-space block: the doubling loop runs
 example : Cli.writeIndentInternal 100 (List.replicate 32 cSpace) [cNl] = List.replicate 100 cSpace ++ [cNl] := by decide
+-- the walker is not trivially true: one space where two are due is rejected, the right layout accepted
+example : indentOk cSpace 2 .out 0 [0x5b, 0x0a, 0x20, 0x31, 0x0a, 0x5d] = false := by decide
+example : indentOk cSpace 2 .out 0 [0x5b, 0x0a, 0x20, 0x20, 0x31, 0x0a, 0x5d] = true := by decide
+example : (⟨2, false, some Cli.defaultColors⟩ : Cli.Opts).indent ≥ 0 ∧ (⟨-1, false, none⟩ : Cli.Opts).indent < 0 := by decide
 -- the default colours are accepted colours
 example : Cli.defaultColors.Valid := defaultColors_valid
 example : Cli.encodeCli ⟨2, false, some Cli.defaultColors⟩ (.arr [.null]) =
